@@ -239,16 +239,56 @@ theorem endpush_witness :
     shown (scenarioEndPush Cfg.repaired) = ["z", "NULL", "a1", "a2", "NULL", "a3", "a3", "NULL"] := by
   decide
 
-/-- F16-DELETE-UNDER-ITERATOR (open, every variant): `a[1-5]`, it_next (a1), delete position 0,
-    it_next yields a3 … the list says a2 is next: the iterator skipped a host -/
+/-- `a[1-4]`: one `hostlist_next`, `hostlist_uniq`, one more -/
+def scenarioUniqReset (cfg : Cfg) : EM (List String) := do
+  let (_, _, e) ← pushE cfg EL.new "a[1-4]".toList
+  let e := itNew e 0
+  let (_, e) ← nexts cfg 1 e 0
+  match uniqE cfg e with
+  | none => .error "assert"
+  | some e =>
+    let (xs, _) ← nexts cfg 1 e 0
+    pure (strs xs)
+
+/-- F16-UNIQ-NORESET: as found the iterator of a one-record list goes on (a2) although every other
+    `hostlist_uniq` restarts it; repaired (findings/C16-UNIQ-NORESET.patch) it starts over (a1) -/
+theorem uniq_noreset_witness :
+    shown (scenarioUniqReset { Cfg.repaired with fixUniqReset := false }) = ["a2"] ∧
+    shown (scenarioUniqReset Cfg.repaired) = ["a1"] := by
+  decide
+
+/-- `a[1-5]`, it_next (a1), delete position 0, it_next -/
+def scenarioIterDelete (cfg : Cfg) : EM (List String) := do
+  let (_, _, e) ← pushE cfg EL.new "a[1-5]".toList
+  let e := itNew e 0
+  let (_, e) ← nexts cfg 1 e 0
+  let e := deleteNthE cfg e 0
+  let (xs, _) ← nexts cfg 1 e 0
+  pure (strs xs ++ ["| list:"] ++ e.hosts.map String.ofList)
+
+/-- F16-DELETE-UNDER-ITERATOR: as found the iterator skips a2 (the list says a2 is next); repaired
+    (findings/C16-ITER-DELETE.patch) it yields a2 -/
 theorem delete_under_iterator_witness :
-    shown (do let (_, _, e) ← pushE Cfg.repaired EL.new "a[1-5]".toList
-              let e := itNew e 0
-              let (_, e) ← nexts Cfg.repaired 1 e 0
-              let e := deleteNthE Cfg.repaired e 0
-              let (xs, _) ← nexts Cfg.repaired 1 e 0
-              pure (strs xs ++ ["| list:"] ++ e.hosts.map String.ofList)) =
-      ["a3", "| list:", "a2", "a3", "a4", "a5"] := by
+    shown (scenarioIterDelete { Cfg.repaired with fixIterDelete := false }) = ["a3", "| list:", "a2", "a3", "a4", "a5"] ∧
+    shown (scenarioIterDelete Cfg.repaired) = ["a2", "| list:", "a2", "a3", "a4", "a5"] := by
+  decide
+
+/-- `a[1-9]`: iterator 0 to a3, iterator 1 to a6, `hostlist_remove` through iterator 0 (the record is
+    split under iterator 1), then iterator 1 goes on -/
+def scenarioMulti (cfg : Cfg) : EM (List String) := do
+  let (_, _, e) ← pushE cfg EL.new "a[1-9]".toList
+  let e := itNew (itNew e 0) 1
+  let (_, e) ← nexts cfg 3 e 0
+  let (_, e) ← nexts cfg 6 e 1
+  let e ← itRemove cfg e 0
+  let (xs, _) ← nexts cfg 2 e 1
+  pure (strs xs)
+
+/-- F16-MULTI: as found the second iterator starts the upper part again (a4, a5 — it had already
+    handed out up to a6); repaired it goes on with a7, a8 -/
+theorem multi_witness :
+    shown (scenarioMulti { Cfg.repaired with fixIterDelete := false }) = ["a4", "a5"] ∧
+    shown (scenarioMulti Cfg.repaired) = ["a7", "a8"] := by
   decide
 
 /-- F16-UNIQ witness: `foo[5-10],foo[06-10]` keeps foo10 twice (and 11 hosts) -/
